@@ -585,4 +585,162 @@ theorem stepTimeout_step (s : State) (h : StateOK s) (id : Int) :
     obtain ⟨rfl, rfl, _⟩ := he
     exact ⟨h, OutOK.nil, rfl⟩
 
+/-! ### chunks of input -/
+
+theorem cstr_sub : ∀ (s : Bytes), (∀ c ∈ Bytes.cstr s, c ∈ s ∧ c ≠ 0)
+  | [], c, h => by simp [Bytes.cstr] at h
+  | x :: xs, c, h => by
+    unfold Bytes.cstr at h
+    split at h
+    · cases h
+    · rename_i hx
+      rcases List.mem_cons.mp h with rfl | h'
+      · exact ⟨List.mem_cons_self .., by simpa using hx⟩
+      · exact ⟨List.mem_cons_of_mem _ (cstr_sub xs c h').1, (cstr_sub xs c h').2⟩
+
+/-- the line assembler never leaves a line feed inside a line -/
+theorem lineStep_inv (st : Bytes × List Bytes) (c : UInt8)
+    (h : (∀ x ∈ st.1, x ≠ 10) ∧ ∀ ln ∈ st.2, ∀ x ∈ ln, x ≠ 10) :
+    (∀ x ∈ (lineStep st c).1, x ≠ 10) ∧ ∀ ln ∈ (lineStep st c).2, ∀ x ∈ ln, x ≠ 10 := by
+  unfold lineStep
+  split
+  · refine ⟨(fun x hx => absurd hx List.not_mem_nil), ?_⟩
+    intro ln hln
+    rcases List.mem_cons.mp hln with rfl | h'
+    · intro x hx
+      split at hx
+      · rename_i t heq
+        exact h.1 x (by rw [heq]; exact List.mem_cons_of_mem _ (List.mem_reverse.mp hx))
+      · exact h.1 x (List.mem_reverse.mp hx)
+    · exact h.2 ln h'
+  · rename_i hc
+    refine ⟨?_, h.2⟩
+    intro x hx
+    rcases List.mem_cons.mp hx with rfl | h'
+    · simpa using hc
+    · exact h.1 x h'
+
+theorem splitLines_nolf (buf : Bytes) : ∀ ln ∈ (splitLines buf).1, ∀ x ∈ ln, x ≠ 10 := by
+  unfold splitLines
+  dsimp only
+  have key : ∀ (l : Bytes) (st : Bytes × List Bytes),
+      ((∀ x ∈ st.1, x ≠ 10) ∧ ∀ ln ∈ st.2, ∀ x ∈ ln, x ≠ 10) →
+      ((∀ x ∈ (l.foldl lineStep st).1, x ≠ 10) ∧ ∀ ln ∈ (l.foldl lineStep st).2, ∀ x ∈ ln, x ≠ 10) := by
+    intro l
+    induction l with
+    | nil => intro st h; exact h
+    | cons c cs ih => intro st h; exact ih _ (lineStep_inv st c h)
+  have := key buf ([], []) ⟨(fun x hx => absurd hx List.not_mem_nil), (fun ln hln => absurd hln List.not_mem_nil)⟩
+  intro ln hln
+  exact this.2 ln (List.mem_reverse.mp hln)
+
+theorem cstr_clean (ln : Bytes) (h : ∀ x ∈ ln, x ≠ 10) : Clean (cstr ln) :=
+  fun c hc => ⟨h c (cstr_sub ln c hc).1, (cstr_sub ln c hc).2⟩
+
+theorem stepLines_step : ∀ (lines : List Bytes) (s : State), StateOK s → (∀ ln ∈ lines, ∀ x ∈ ln, x ≠ 10) →
+    StepOK s (stepLines s lines)
+  | [], s, h, _ => by unfold stepLines; exact StepOK.pure h _ OutOK.nil
+  | ln :: rest, s, h, hl => by
+    unfold stepLines
+    split
+    · exact stepLines_step rest s h (fun l hl' => hl l (List.mem_cons_of_mem _ hl'))
+    · intro s' out he
+      simp only [bind, Except.bind] at he
+      split at he
+      · cases he
+      · rename_i v1 h1
+        obtain ⟨s1, o1⟩ := v1
+        dsimp only at he
+        split at he
+        · cases he
+        · rename_i v2 h2
+          obtain ⟨s2, o2⟩ := v2
+          simp only [pure, Except.pure, Except.ok.injEq, Prod.mk.injEq] at he
+          obtain ⟨rfl, rfl⟩ := he
+          obtain ⟨k1, w1, l1⟩ := stepLine_step s h (cstr ln) (cstr_clean ln (hl ln (List.mem_cons_self ..))) s1 o1 h1
+          obtain ⟨k2, w2, l2⟩ := stepLines_step rest s1 k1 (fun l hl' => hl l (List.mem_cons_of_mem _ hl')) s2 o2 h2
+          exact ⟨k2, OutOK.append w1 w2, l2.trans l1⟩
+
+theorem StateOK.inbuf {s : State} (h : StateOK s) (buf : Bytes) : StateOK { s with inbuf := buf } :=
+  ⟨h.reqs, h.svcs, h.rules, h.lim⟩
+
+theorem stepChunk_step (s : State) (h : StateOK s) (chunk : Bytes) : StepOK s (stepChunk s chunk) := by
+  intro s' out he
+  unfold stepChunk at he
+  dsimp only at he
+  cases hs : stepLines { s with inbuf := [] } (splitLines (s.inbuf ++ chunk)).1 with
+  | error e => rw [hs] at he; simp [Except.map] at he
+  | ok v =>
+    obtain ⟨s1, o1⟩ := v
+    rw [hs] at he
+    simp only [Except.map, Except.ok.injEq, Prod.mk.injEq] at he
+    obtain ⟨rfl, rfl⟩ := he
+    obtain ⟨k, w, l⟩ := stepLines_step _ _ (h.inbuf []) (splitLines_nolf _) s1 o1 hs
+    exact ⟨k.inbuf _, w, l⟩
+
+/-- **C09 (model part), one operation**: whatever chunk of bytes arrives and whichever timer
+    fires, every line written is a well-formed IAuth message, and the invariant is kept. -/
+theorem stepOp_wellFormed (s : State) (h : StateOK s) (op : Op) :
+    ∀ s' out, stepOp s op = .ok (s', out) → StateOK s' ∧ OutOK out := by
+  intro s' out he
+  cases op with
+  | chunk bs =>
+    obtain ⟨k, w, _⟩ := stepChunk_step s h bs s' out he
+    exact ⟨k, w⟩
+  | timeout id =>
+    simp only [stepOp] at he
+    cases ht : stepTimeout s id with
+    | error e => rw [ht] at he; simp [Except.map] at he
+    | ok v =>
+      obtain ⟨s1, o1, f⟩ := v
+      rw [ht] at he
+      simp only [Except.map, Except.ok.injEq, Prod.mk.injEq] at he
+      obtain ⟨rfl, rfl⟩ := he
+      obtain ⟨k, w, _⟩ := stepTimeout_step s h id s1 o1 f ht
+      exact ⟨k, w⟩
+
+/-- **C09 (model part), every history** of input chunks and timer expiries -/
+theorem runOps_wellFormed : ∀ (ops : List Op) (s : State), StateOK s →
+    ∀ s' outs, runOps s ops = .ok (s', outs) → StateOK s' ∧ ∀ out ∈ outs, OutOK out
+  | [], s, h, s', outs, he => by
+    simp only [runOps, pure, Except.pure, Except.ok.injEq, Prod.mk.injEq] at he
+    obtain ⟨rfl, rfl⟩ := he
+    exact ⟨h, by intro o ho; cases ho⟩
+  | op :: ops, s, h, s', outs, he => by
+    simp only [runOps, bind, Except.bind] at he
+    split at he
+    · cases he
+    · rename_i v1 h1
+      obtain ⟨s1, o1⟩ := v1
+      dsimp only at he
+      split at he
+      · cases he
+      · rename_i v2 h2
+        obtain ⟨s2, os⟩ := v2
+        simp only [pure, Except.pure, Except.ok.injEq, Prod.mk.injEq] at he
+        obtain ⟨rfl, rfl⟩ := he
+        obtain ⟨k1, w1⟩ := stepOp_wellFormed s h op s1 o1 h1
+        obtain ⟨k2, w2⟩ := runOps_wellFormed ops s1 k1 s2 os h2
+        refine ⟨k2, ?_⟩
+        intro o ho
+        rcases List.mem_cons.mp ho with rfl | h'
+        · exact w1
+        · exact w2 o h'
+
+/-- the start-up lines -/
+theorem startup_wellFormed (s : State) (h : StateOK s) (version : Bytes) (hv : Clean version) :
+    OutOK (startup s version) := by
+  unfold startup
+  refine OutOK.append (OutOK.append (OutOK.single ?_) (collectConfig_ok s h)) (OutOK.ite (OutOK.single ?_) OutOK.nil)
+  · rw [sendRaw_eq]
+    have e : b "V :" ++ version = 86 :: (32 :: 58 :: version) := by
+      have h1 : b "V :" = [86, 32, 58] := by decide
+      rw [h1]; rfl
+    rw [e]
+    exact global_wellFormed 86 (Or.inl rfl) _ (Or.inr ⟨_, rfl⟩) (Clean.cons (by decide) (by decide) (Clean.cons (by decide) (by decide) hv))
+  · rw [sendRaw_eq]
+    have e : b "O SARUW" = 79 :: (32 :: b "SARUW") := by decide
+    rw [e]
+    exact global_wellFormed 79 (Or.inr (Or.inr (Or.inr (Or.inl rfl)))) _ (Or.inr ⟨_, rfl⟩) (clean_of_cleanB (by decide))
+
 end Iauthd.Proto
